@@ -294,6 +294,20 @@ pub fn run(ctx: &mut RunCtx) -> Result<(), Violation> {
             };
             let node2 = VerifierNode::new(v2)?;
             if node2.bytes == node.bytes {
+                // identical keys are fine if the mutation left the description alone (e.g. it renamed a
+                // witness); if the layouts differ, the compilation lost what distinguishes them and every
+                // proof for one circuit is a proof for the other
+                let la = crate::program::snapshot_of(&sc.prog, &crate::program::Tape::default());
+                let lb = crate::program::snapshot_of(&prog2, &crate::program::Tape::default());
+                if let (Ok(la), Ok(lb)) = (la, lb) {
+                    if !crate::rm_rows::same_description(&la, &lb) {
+                        ctx.note("near_miss", J::s(format!("{}: {}", what, crate::program::describe(&prog2))));
+                        return Err(Violation::new(
+                            "I-integrity",
+                            format!("two different circuit descriptions ({}) compile to byte-identical verifiers: a proof for one is accepted for the other", what),
+                        ));
+                    }
+                }
                 ctx.st.probe("near_miss_identical_description_skipped");
                 continue;
             }
@@ -303,6 +317,20 @@ pub fn run(ctx: &mut RunCtx) -> Result<(), Violation> {
                 let d = deliver(ctx, &node2, m, m.version, &env_v)?;
                 ctx.st.eval(sig ^ digest(what.as_bytes()) ^ 0x55, true);
                 if d.accepted() {
+                    // Where a public input sits only matters through its value: if every public input that
+                    // sits on another row in the other description is zero, both descriptions put the same
+                    // equations on the same wires for this vector - the proof *is* a proof of the other
+                    // statement, and a complete verifier has to accept it.  (A false alarm of the first
+                    // version of this mutation on the unchanged tree, DESIGN.md 9.4.)
+                    if what == "public_input_moved_to_another_row" {
+                        let nz = |rows: &[u64], pi: &[BlsScalar]| -> Vec<(u64, BlsScalar)> {
+                            rows.iter().zip(pi.iter()).filter(|(_, v)| **v != BlsScalar::zero()).map(|(r, v)| (*r, *v)).collect()
+                        };
+                        if nz(&node.rm.pi_rows, &m.pi) == nz(&node2.rm.pi_rows, &m.pi) {
+                            ctx.st.probe("moved_public_input_is_zero(same statement, accepted)");
+                            continue;
+                        }
+                    }
                     ctx.note("near_miss", J::s(format!("{}: {}", what, crate::program::describe(&prog2))));
                     return Err(Violation::new("I-integrity", format!("proof accepted by the verifier of a different circuit ({})", what)));
                 }
